@@ -1,0 +1,18 @@
+//go:build verif
+
+package pokertable
+
+// VerifHandResponses returns, for the readiness / ante / blind request the current hand is collecting, which
+// entries of the hand's player list have been heard from (hand-player index -> answered); nil when no hand
+// or no collection exists. Read-only accessor used by the verification harness (build tag "verif").
+func VerifHandResponses(te TableEngine) map[int64]bool {
+	e, ok := te.(*tableEngine)
+	if !ok || e.game == nil {
+		return nil
+	}
+	g, ok := e.game.(*game)
+	if !ok || g.rg == nil {
+		return nil
+	}
+	return g.rg.GetParticipantStates()
+}
